@@ -324,8 +324,13 @@ impl Operator for QuantizeLinear {
     }
 
     fn output_types(&self, _ctx: &OutputTypesContext) -> Option<OutputTypeList> {
-        let dtype = self.output_dtype.unwrap_or(DataType::Int8);
-        Some([OutputType::Fixed(ValueType::Tensor(dtype))].into())
+        let output_type = match self.output_dtype {
+            Some(dtype) => OutputType::Fixed(ValueType::Tensor(dtype)),
+            // If the `output_dtype` attribute is not set, the output type is
+            // the type of the zero point.
+            None => OutputType::CopyFromInput(2),
+        };
+        Some([output_type].into())
     }
 
     fn as_infer_shapes(&self) -> Option<&dyn InferShapes> {
